@@ -870,7 +870,24 @@ class Gen:
             return None
         self.features.add('same-object-twice')
         which = rng.choice(['x+x', 'x*x', 'x-x', 'x/x', 'x*x+x', '(a+b)+(a+b)',
-                            'op(x,x)', 'sum3(x,x,y)', 'madd(x,x,x)', 'src(x,x)'])
+                            'op(x,x)', 'sum3(x,x,y)', 'madd(x,x,x)', 'src(x,x)',
+                            '(-x)-(-x)', 'dead-cascade'])
+        if which == '(-x)-(-x)':
+            n = self.mk_un('neg', x) if rng.random() < 0.5 else \
+                self.mk_bin('-', ['c', 0], x)
+            return n and self.mk_bin('-', n, n)
+        if which == 'dead-cascade':
+            # t and d are never referenced; removing them makes y rewritable
+            # while it is still an input of the unit being removed
+            s0 = self.mk_bin('+', x, self.pick(pconst=0.2))
+            y = s0 and self.mk_bin('+', s0, self.pick(pconst=0.5))
+            t = y and self.mk_bin('+', s0, y)
+            d = t and self.mk_bin('+', t, y)
+            if d:
+                self.uses[t[1]] += 1000      # keep t and d unreferenced
+                self.uses[d[1]] += 1000
+                self.info[t[1]].depth = self.info[d[1]].depth = 99
+            return y
         if which in ('x+x', 'x*x', 'x-x', 'x/x'):
             return self.mk_bin(which[1], x, x)
         if which == 'x*x+x':
